@@ -33,6 +33,9 @@ def values(draw, n: int, mode: str, mag: float = 1e6):
         return [k / 64 for k in draw(st.lists(st.integers(-640, 640), min_size=n, max_size=n))]
     if mode == "int":
         return draw(st.lists(st.integers(-5, 5), min_size=n, max_size=n))
+    if mode == "uint":  # quantised scores, stored as uint8 / uint16 / bool (see build_scores)
+        lo, hi = draw(st.sampled_from([(0, 1), (0, 9), (0, 255), (200, 255)]))
+        return draw(st.lists(st.integers(lo, hi), min_size=n, max_size=n))
     if mode == "float":
         fl = st.floats(min_value=-mag, max_value=mag, allow_nan=False, allow_infinity=False,
                        allow_subnormal=False)
@@ -90,6 +93,10 @@ def build_scores(s, which):
 
     vals = s[which]
     c = s.get("container", "f64")
+    if s["mode"] == "uint" and c != "list":
+        if max(list(s["pos"]) + list(s["neg"]) + [0]) <= 1 and c in ("f32", "pos-int"):
+            return np.asarray(vals, dtype=bool)
+        return np.asarray(vals, dtype=np.uint16 if c in ("neg-f32", "neg-int") else np.uint8)
     if c in ("neg-int", "pos-int", "neg-f32"):
         # mixed containers: one class in a narrower dtype than the other
         cls, kind = c.split("-")
@@ -130,8 +137,10 @@ def score_sets(draw, min_pos=0, min_neg=0, max_size=12, modes=ALL_MODES, mag=1e6
         import numpy as np
 
         cls, kind = container.split("-")
-        if mode == "int" or (kind == "f32" and mode == "distinct"):
+        if kind == "f32" and mode == "distinct":
             container = "f64"
+        elif mode in ("int", "uint"):
+            pass  # integer modes choose their own dtype in build_scores
         elif kind == "int":
             if mode in ("float", "ulp"):
                 container = "f64"
@@ -149,7 +158,7 @@ def score_sets(draw, min_pos=0, min_neg=0, max_size=12, modes=ALL_MODES, mag=1e6
             else:
                 container = "f64"
     if container == "f32":
-        if mode in ("grid", "dyadic", "int"):
+        if mode in ("grid", "dyadic", "int", "uint"):
             pass  # exactly representable
         elif mode in ("float", "ulp"):
             import numpy as np
